@@ -97,9 +97,10 @@ impl Payload {
                 (String::new(), String::new(), l.clone(), sh)
             }
             Payload::StructExpr => (String::new(), String::new(), "Item { id: 1 }".into(), Shape::Ref("Item".into(), vec![])),
-            Payload::TypedParam(t) => (format!(", p{}: {}", k, t.to_rust()), String::new(), format!("p{}", k), shape::denote(t)),
-            Payload::TypedLet(t) => (String::new(), format!("    let v{}: {} = make();\n", k, t.to_rust()), format!("v{}", k), shape::denote(t)),
-            Payload::InferredLet => (String::new(), format!("    let v{} = make();\n", k), format!("v{}", k), Shape::Unknown),
+            // the payload variable has the same name (`data`) in every function on purpose
+            Payload::TypedParam(t) => (format!(", data: {}", t.to_rust()), String::new(), "data".to_string(), shape::denote(t)),
+            Payload::TypedLet(t) => (String::new(), format!("    let data: {} = make();\n", t.to_rust()), "data".to_string(), shape::denote(t)),
+            Payload::InferredLet => (String::new(), "    let data = make();\n".to_string(), "data".to_string(), Shape::Unknown),
             Payload::RefOfParam(t) => (format!(", p{}: {}", k, t.to_rust()), String::new(), format!("&p{}", k), shape::denote(t)),
             Payload::CloneOfParam(t) => (format!(", p{}: {}", k, t.to_rust()), String::new(), format!("p{}.clone()", k), shape::denote(t)),
             Payload::TupleExpr => (String::new(), String::new(), "(1, true)".into(), Shape::Unknown),
@@ -409,6 +410,40 @@ pub fn run(tier: Tier) -> CheckResult {
                 cases.push(Case { emits: emits.clone(), zod: false });
                 cases.push(Case { emits, zod: true });
             }
+        }
+    }
+    // (4b) interleavings of two and three names (A B A, A B B A, A B C A B ...), over 1..2 files
+    for pattern in [vec![0usize, 1, 0], vec![0, 1, 1, 0], vec![0, 1, 2, 0, 1], vec![1, 0, 0, 1, 0], vec![0, 1, 0, 1]] {
+        for files in 1..=2usize {
+            for differing in [false, true] {
+                let names = ["job-progress", "job-done", "job-failed"];
+                let emits: Vec<Emit> = pattern
+                    .iter()
+                    .enumerate()
+                    .map(|(k, n)| Emit {
+                        name: names[*n].into(),
+                        placement: [13, 0, 2, 5][k % 4],
+                        receiver: k % 3,
+                        emit_to: k % 2 == 1,
+                        payload: if differing && k >= 2 { Payload::Lit("true".into()) } else { [Payload::StructExpr, Payload::Lit("1".into()), Payload::Lit("\"s\"".into())][*n].clone() },
+                        file: k % files,
+                    })
+                    .collect();
+                cases.push(Case { emits: emits.clone(), zod: false });
+                cases.push(Case { emits, zod: true });
+            }
+        }
+    }
+    // (4c) state must not leak between functions: an earlier function binds a name to a type, a
+    // later one emits an untyped local of the same name (expected: unknown), and vice versa
+    for (first, second) in [
+        (Payload::TypedParam(RTy::named("Item")), Payload::InferredLet),
+        (Payload::TypedLet(RTy::vec(RTy::prim("String"))), Payload::InferredLet),
+        (Payload::InferredLet, Payload::TypedParam(RTy::named("Kind"))),
+    ] {
+        for zod in [false, true] {
+            // both payload variables are called v0/p0 in their own function: force the same name
+            cases.push(Case { emits: vec![one("first-event", 13, 0, false, first.clone()), one("second-event", 13, 0, false, second.clone())], zod });
         }
     }
     // (5) pairs of distinct names, incl. names that normalise alike
